@@ -162,6 +162,7 @@ pub fn run(ctx: &Ctx) -> i32 {
             random_per_enc: ctx.n(4_000, 120_000),
             profile: Profile { max_tokens: ctx.tier.pick(10, 40), small_caps_weight: 200, queries: true, exact_queries: true, modes: &hist::ALL_MODES, sinks: &hist::ALL_SINKS, bom_prefix_weight: 64 },
             fills: vec![0xA5],
+            mixed_sinks: false,
         };
         st.merge(dech::run_dec_check(ctx, &dc));
     }
